@@ -40,10 +40,11 @@ type codecCfg struct {
 }
 
 type appMsg struct {
-	id   int
-	tag  protocol.Tag
-	data []byte
-	vote bool
+	id      int
+	tag     protocol.Tag
+	data    []byte
+	vote    bool
+	nonVote bool // AV payload that is not a vote at all: outside the property, judged by the reference decoder only
 }
 
 type flight struct {
@@ -57,42 +58,47 @@ type flight struct {
 }
 
 type side struct {
-	name    string
-	conn    *simConn
-	peer    *network.VerifPeer
-	rb      chan network.IncomingMessage
-	closed  bool
-	reason  string
-	enabled bool // harness expectation of statefulVoteEnabled
-	tblSize uint
-	stless  bool // incoming AV goes through the stateless decoder
-	twinEnc *vpack.StatefulEncoder
-	twinDec *vpack.StatefulDecoder
-	model   *modelDecoder
-	tainted bool // the incoming link carried a well-formed frame the sender's encoder did not produce
-	forged  bool
-	last    *voteFields
-	lastRaw []byte
+	name     string
+	conn     *simConn
+	peer     *network.VerifPeer
+	rb       chan network.IncomingMessage
+	closed   bool
+	reason   string
+	enabled  bool // harness expectation of statefulVoteEnabled
+	tblSize  uint
+	stless   bool // incoming AV goes through the stateless decoder
+	twinEnc  *vpack.StatefulEncoder
+	twinDec  *vpack.StatefulDecoder
+	model    *modelDecoder
+	seenSnd  map[[32]byte]bool
+	seenProp map[[32]byte]int
+	propSeq  int
+	tainted  bool // the incoming link carried a well-formed frame the sender's encoder did not produce
+	forged   bool
+	last     *voteFields
+	lastRaw  []byte
 }
 
 type codecSim struct {
 	*base
-	cfg      codecCfg
-	sd       [2]*side
-	links    [2][]*flight // links[i]: frames written by side i, FIFO
-	nextID   int
-	curRound uint64
-	epoch    int
-	vpFrames int64
-	refHits  int64
-	compares int64
-	nonce    uint64
+	cfg        codecCfg
+	sd         [2]*side
+	links      [2][]*flight // links[i]: frames written by side i, FIFO
+	nextID     int
+	curRound   uint64
+	epoch      int
+	vpFrames   int64
+	refHits    int64
+	compares   int64
+	nonce      uint64
+	negotiated bool
+	curVote    *voteFields
 }
 
 func newCodecSim(b *base) *codecSim { return &codecSim{base: b} }
 func (s *codecSim) core() *base     { return s.base }
 
-var tableChoices = []uint{16, 16, 16, 32, 32, 64, 20, 128, 256, 1024, 2048, 5000, 0, 8}
+var tableChoices = []uint{16, 16, 16, 32, 32, 64, 20, 128, 256, 1024, 5000, 16, 0, 8}
 
 func (s *codecSim) drawConfig() {
 	tp := s.tape
@@ -182,6 +188,7 @@ func (s *codecSim) connect() {
 		s.violate("negotiation-mismatch", "", fmt.Sprintf("ends negotiated different stateful settings: A enabled=%v size=%d, B enabled=%v size=%d (cfg %+v)",
 			s.sd[0].enabled, s.sd[0].tblSize, s.sd[1].enabled, s.sd[1].tblSize, s.cfg))
 	}
+	s.negotiated = s.sd[0].enabled && s.sd[1].enabled
 	s.log.Add("connect epoch=%d stateful=%v table=%d statelessA=%v statelessB=%v", s.epoch, s.sd[0].enabled, s.sd[0].tblSize, s.sd[0].stless, s.sd[1].stless)
 }
 
@@ -283,6 +290,16 @@ func (s *codecSim) oneStep() {
 		s.sendUncompressible(dir, d.mod(2, 3), uint64(d.rawv(3)))
 		return
 	}
+	if s.negotiated && pending == 0 && !s.sd[0].enabled && !s.sd[1].enabled && d.raw[1]%8 == 3 {
+		// both ends fell back to stateless votes: model the eventual reconnection so that the
+		// stateful codec is exercised again in this run
+		d.rawv(1)
+		s.stat("reconnect_after_fallback", 1)
+		s.log.Add("step %d reconnect after fallback", s.step)
+		s.disconnect()
+		s.connect()
+		return
+	}
 	op := d.mod(1, 8)
 	dir := d.mod(2, 2)
 	if pending > 40 {
@@ -381,6 +398,8 @@ func (s *codecSim) sendVote(dir int, d *stepDraw) {
 	f, kind := s.makeVote(dir, d)
 	raw := encodeVote(f)
 	s.sd[dir].last = f
+	s.curVote = f
+	defer func() { s.curVote = nil }()
 	s.sendApp(dir, protocol.AgreementVoteTag, raw, true, fmt.Sprintf("%s r%d p%d s%d snd%x", kind, f.Rnd, f.Per, f.Step, f.Snd[:3]))
 }
 
@@ -425,12 +444,9 @@ func (s *codecSim) sendUncompressible(dir, kind int, r uint64) {
 }
 
 func (s *codecSim) sendOther(dir, which, r int) {
-	tags := []protocol.Tag{protocol.TxnTag, protocol.ProposalPayloadTag, protocol.VoteBundleTag, protocol.NetPrioResponseTag, protocol.StateProofSigTag, protocol.UniEnsBlockReqTag}
+	tags := []protocol.Tag{protocol.TxnTag, protocol.ProposalPayloadTag, protocol.VoteBundleTag, protocol.NetPrioResponseTag, protocol.NetIDVerificationTag, protocol.UniEnsBlockReqTag}
 	tag := tags[which]
-	n := 1 + r%300
-	if tag == protocol.UniEnsBlockReqTag {
-		n = 1 + r%60
-	}
+	n := 1 + r%min(300, int(tag.MaxMessageSize()))
 	data := make([]byte, n)
 	fillBytes(data, uint64(r)*7919+uint64(s.step))
 	if r%5 == 0 { // compressible payload
@@ -449,7 +465,7 @@ func isAbort(data []byte) bool {
 func (s *codecSim) sendApp(dir int, tag protocol.Tag, data []byte, vote bool, desc string) {
 	sd := s.sd[dir]
 	s.nextID++
-	m := &appMsg{id: s.nextID, tag: tag, data: data, vote: vote}
+	m := &appMsg{id: s.nextID, tag: tag, data: data, vote: vote, nonVote: desc == "uncompressible garbage"}
 	// screen the encoders in this goroutine so that a panic is reported with its input
 	if vote && s.cfg.En[dir] {
 		var sl []byte
@@ -533,6 +549,26 @@ func (s *codecSim) sendApp(dir int, tag protocol.Tag, data []byte, vote bool, de
 		}
 		if h1&3 != 0 {
 			s.stat("rnd_delta", 1)
+		}
+		if f := s.curVote; f != nil {
+			// reach probes: a literal for something this encoder already sent means it was evicted
+			if sd.seenSnd == nil {
+				sd.seenSnd, sd.seenProp = map[[32]byte]bool{}, map[[32]byte]int{}
+			}
+			if h1&(1<<5) == 0 && sd.seenSnd[f.Snd] {
+				s.stat("lru_sender_evicted_and_resent", 1)
+			}
+			sd.seenSnd[f.Snd] = true
+			if h1&0x1c == 0 {
+				if _, ok := sd.seenProp[f.Dig]; ok {
+					s.stat("window_entry_evicted_and_resent", 1)
+				}
+				sd.propSeq++
+				if sd.propSeq > 7 {
+					s.stat("window_wraparound_inserts", 1)
+				}
+				sd.seenProp[f.Dig] = sd.propSeq
+			}
 		}
 	} else if vote {
 		if len(carried.data)-2 == len(data) {
@@ -703,7 +739,7 @@ func (s *codecSim) deliverHead(dir int, fault string, r uint64) {
 			return
 		}
 		mv, merr := rcv.model.decodeVP(body)
-		honest := fl.orig != nil && !dl.corrupted && !rcv.tainted && !replay
+		honest := fl.orig != nil && !dl.corrupted && !rcv.tainted && !replay && !fl.orig.nonVote
 		switch {
 		case honest:
 			exp = expectation{some: true, bytes: fl.orig.data, why: "honest-vp", honest: true, stateCheck: true}
@@ -730,7 +766,7 @@ func (s *codecSim) deliverHead(dir int, fault string, r uint64) {
 				exp.reject = true // documented fallback: the bytes are handed on unchanged
 			}
 		}
-		if fl.orig != nil && !dl.corrupted {
+		if fl.orig != nil && !dl.corrupted && !fl.orig.nonVote {
 			exp.honest = true
 			if !bytes.Equal(exp.bytes, fl.orig.data) {
 				exp.modelDisagree = true
@@ -822,6 +858,10 @@ func (s *codecSim) judge(dl *delivery) {
 		if !exp.honest {
 			s.stat("nonhonest_frames_agree_with_model", 1)
 		}
+		if fl.orig != nil && fl.orig.nonVote && !dl.corrupted && !bytes.Equal(d, fl.orig.data) {
+			// observation, not a verdict: the payload was not a vote (see report)
+			s.stat("nonvote_av_payload_rewritten", 1)
+		}
 	case exp.some && len(got) == 1:
 		if exp.honest {
 			s.violate("vote-differs", "", fmt.Sprintf("%s: delivered bytes differ from the bytes sent\n sent %x\n got  %x\n frame %x", desc, exp.bytes, d, body))
@@ -880,7 +920,7 @@ func (s *codecSim) judge(dl *delivery) {
 		s.compares++
 		s.stat("state_compares", 1)
 		if !bytes.Equal(full.Dec, fl.enc) {
-			s.violate("state-desync", "", fmt.Sprintf("%s: receiver's dynamic-table state differs from the sender's after this frame (first difference at byte %d of %d/%d)", desc, firstDiff(full.Dec, fl.enc), len(full.Dec), len(fl.enc)))
+			s.violate("state-desync", "", fmt.Sprintf("%s: receiver's dynamic-table state (LRU tables, MRU bits, proposal window, last round) differs from the sender's state right after it produced this frame\n sender digest   %x\n receiver digest %x", desc, fl.enc, full.Dec))
 			return
 		}
 	}
